@@ -83,8 +83,17 @@ def check_history(ctx, anchor, label, cells, steps, sheet='Sheet1', why='', cach
 
 def check_orders(ctx, anchor, label, cells, addrs, sheet='Sheet1', why='', cache=None):
     """Every addr evaluated alone in a fresh model is the reference; evaluating them all in one model - forwards, backwards,
-    twice - and on a second evaluator over the same model must give the same values."""
-    ref = {a: fresh_value(ctx, cells, f'{sheet}!{a}', cache) for a in addrs}
+    twice - and on a second evaluator over the same model must give the same values. (Quick tier: every fourth cell gets a
+    fresh model of its own, the others take the value of the reverse-order run as reference - the two runs must still agree.)"""
+    ref = {}
+    for i, a in enumerate(addrs):
+        if ctx.tier != 'quick' or i % 4 == 0:
+            ref[a] = W.Workbook(ctx, cells).value(f'{sheet}!{a}')
+    if len(ref) < len(addrs):
+        wb0 = W.Workbook(ctx, cells)
+        for a in reversed(addrs):
+            v = wb0.value(f'{sheet}!{a}')
+            ref.setdefault(a, v)
     n = 0
     for oname, order in (('in written order, twice', list(addrs) + list(addrs)), ('in reverse order', list(reversed(addrs)))):
         wb = W.Workbook(ctx, cells)
